@@ -261,6 +261,10 @@ def rule_rcos(ctx):
             def strip(a):
                 if a[0] == "idx" and isinstance(a[1], Form) and a[1].sym_name() == "x":
                     return x
+                if a[0] == "idx" and isinstance(a[1], Form) and isinstance(a[2], Form):
+                    ia = a[2].single_atom()
+                    if ia is not None and ia[0] == "fn" and ia[1] in ("band", "and", "gt", "ge", "le", "lt"):
+                        return a[1].subst(strip)      # V[mask]: the value restricted to the region selected by a boolean mask
                 return None
             arg2 = arg.subst(strip)
             w = PI * T / al * (ax - b1)
@@ -423,6 +427,26 @@ def rule_str2array(ctx):
                 ft2 = (o.node, val)
         if len(rows2) == 4:
             rows, fall_through = rows2, ft2
+        elif len(rows2) == 0:
+            # ... or a first-match expression next((type for pattern, type in TABLE if re.match(pattern, s)), None): a chain of
+            # conditional values ifexp(match_1, type_1, ifexp(match_2, type_2, ... fall-through))
+            outs_ = [o for o in Interp(pkg).run(fi) if o.kind == "return"]
+            if len(outs_) == 1:
+                def show(v_):
+                    return v_.name.split(".")[-1] if isinstance(v_, ClassRef) else ("None" if isinstance(v_, Const) and v_.v is None else repr(v_))
+                cur, rows3 = outs_[0].value, []
+                while isinstance(cur, Form):
+                    ca = cur.single_atom()
+                    if not (ca and ca[0] == "fn" and ca[1] == "ifexp" and len(ca[2]) == 3):
+                        break
+                    ma = ca[2][0].single_atom() if isinstance(ca[2][0], Form) else None
+                    if not (ma and ma[0] == "fn" and ma[1] in ("re.match", "re.fullmatch") and ma[2] and isinstance(ma[2][0], Const)):
+                        rows3 = []
+                        break
+                    rows3.append((outs_[0].node, ma[2][0].v, show(ca[2][1]), ma[1]))
+                    cur = ca[2][2]
+                if len(rows3) == 4:
+                    rows, fall_through = rows3, (outs_[0].node, show(cur))
     if len(rows) != 4:
         ctx.unknown("C19.6", fi, fi.node, "type-inference regexes", f"expected 4 regex branches, found {len(rows)}")
         return
